@@ -4,10 +4,21 @@
    A configuration c (everything read_client_conf can see):
      n      number of candidate configuration-file paths of the platform (ordered 1..n)
      exist  subset of 1..n: which candidate files exist
-     kind   [1..n -> {"file", "dir"}]   what an EXISTING candidate path is on disk: a regular readable file, or
-            something that exists but cannot be read as a file (a directory of that name; the portable stand-in for
-            "permission denied", "I/O error", ... - the sandbox runs as root, so mode bits do not stop open()).
+     kind   [1..n -> CandKinds]   what kind of FILE-SYSTEM OBJECT an EXISTING candidate path is:
+            "file" a regular readable file; "link" a symbolic link to a regular file kept in ANOTHER directory (a
+            dotfiles checkout, /etc alternatives) - it reads like that file, and it IS the configuration file: "that
+            file's directory" is the directory the candidate path lies in, not the directory of the link's target;
+            "dir" / "linkdir" / "sock" something that exists but cannot be read as a file (a directory of that name, a
+            symbolic link to a directory, a unix socket; the portable stand-ins for "permission denied", "I/O error",
+            ... - the sandbox runs as root, so mode bits do not stop open()).
             Meaningless for candidates that do not exist.
+     ghost  [1..n -> GhostKinds]  what stands at a candidate path that does NOT exist (os.path.exists is false): "none"
+            nothing, "dangling" a symbolic link whose target is missing, "loop" a symbolic link to itself.  Such a path
+            is not an existing configuration file; Resolve does not look at ghost.  Meaningless for existing candidates.
+     cdir   [1..n -> {"plain", "link"}]  the directory of candidate i is a real directory / is itself reached through
+            a symbolic link to a directory elsewhere.  "That file's directory" is the same directory either way
+            (the executor accepts it named as listed or by its canonical path); Resolve does not look at cdir.
+     cwd    "plain" | "link": the working directory was entered through its own path / through a symbolic link to it
      key    [1..n -> [Settings -> {"present", "absent", "commented", "emptyval"}]]   content of each file;
             "emptyval" = the key is there with nothing after the '=' ("transport=")
      body   [1..n -> {"plain", "empty", "blank"}]   how an existing file is written: "empty" = 0 bytes (only if
@@ -16,7 +27,16 @@
      env    [Settings -> {"unset", "set", "empty"}]   NDN_CLIENT_TRANSPORT / _PIB / _TPM: not in the environment,
             set to a value, or set to the EMPTY string ("NDN_CLIENT_TRANSPORT= ./app", "export NDN_CLIENT_PIB=")
      loc    [Stores -> LocClass]             the location carried by every non-default value of that store
+     rel    [Stores -> RelShapes]            how a RELATIVE location is spelled: "std" (a bare name from the environment,
+            "d/name" from a file), "dot" ("./" in front), "dotdot" ("../name": the store sits one level above the
+            base directory - above the directory the kernel reaches, also when that directory was reached through a
+            link), "deep" ("up/../d/./name").  Which directory it is resolved against never depends on the spelling.
      defx   [Stores -> Seq(BOOLEAN)]         which of the platform's default locations exist (ordered)
+     sobj   [Stores -> StoreObjs]            what kind of object every EXISTING location of that store is (given or
+            default): "dir" a directory, "link" a symbolic link to a directory elsewhere, "file" a regular file.
+            "A store location that exists is used as given" - existence counts, whatever exists there.
+     smiss  [Stores -> {"absent", "dangling"}]  what stands where a MISSING location of that store is looked for (as
+            given, next to the configuration file, the missing default locations): nothing / a dangling symbolic link.
      val    the alphabet of the values of the non-default sources:
             "plain"; "pct" = a '%' inside every value (IPv6 zone id "%25eth0" in the transport host, '%' in store
             directory names); "punct" = store directory names holding ' ', '=', ' #', ' ;' (what an inline-comment or
@@ -43,7 +63,11 @@
    next to the FIRST EXISTING configuration file), relM (relative, exists nowhere), relCwd (relative,
    exists as given, i.e. relative to the working directory), relOther (relative, exists only next to
    ANOTHER candidate path, which is not "the" configuration file), absEc (stage C only: absolute,
-   exists, name contains ':').
+   exists, name contains ':'),
+   relT (relative, exists only next to the TARGET of the symbolic link that the first existing candidate is - a
+   directory that is not "that file's directory"; next to the link itself stands what smiss says; when that candidate
+   is not a link to a file, relT exists nowhere), relB (relative, exists BOTH next to the first existing candidate
+   and next to its link target - two different directories: the one next to the candidate is the one resolved to).
 
    Resolve is written the way the code is layered (defaults, then file, then environment; then
    location resolution); the P_* invariants are the clauses of the property statement.
@@ -63,9 +87,14 @@ Settings == {"transport", "pib", "tpm"}
 Stores   == {"pib", "tpm"}
 KeyStates == {"present", "absent", "commented", "emptyval"}
 EnvStates == {"unset", "set", "empty"}
-CandKinds == {"file", "dir"}
+CandKinds == {"file", "link", "dir", "linkdir", "sock"}
+ReadableKinds == {"file", "link"}                      \* open() + read() gives the text of the configuration
+GhostKinds == {"none", "dangling", "loop"}
+StoreObjs == {"dir", "link", "file"}
+RelShapes == {"std", "dot", "dotdot", "deep"}
 HasKey(k) == k \in {"present", "emptyval"}             \* the key is in the file (with or without characters after '=')
-LocClasses == {"none", "absE", "absM", "relE", "relM", "relCwd", "relOther"}
+LocClasses == {"none", "absE", "absM", "relE", "relM", "relCwd", "relOther", "relT", "relB"}
+RelClasses == {"relE", "relM", "relCwd", "relOther", "relT", "relB"}
 \* only in stage C: an absolute existing location whose name contains ':' (like every Windows path)
 LocClassesC == LocClasses \cup {"absEc"}
 
@@ -87,7 +116,7 @@ EmptyVal(c, s) == LET w == Winner(c, s) IN \/ w.k = "env" /\ c.env[s] = "empty"
 \* what the value used shows: its source, or that it is the empty string
 Shown(c, s) == IF EmptyVal(c, s) THEN Src("empty", 0) ELSE Winner(c, s)
 \* the first existing candidate cannot be read as a file
-Unreadable(c) == LET f == FirstExisting(c) IN f # 0 /\ c.kind[f] = "dir"
+Unreadable(c) == LET f == FirstExisting(c) IN f # 0 /\ c.kind[f] \notin ReadableKinds
 
 \* ------------------------------------------------------------------ store location
 ValClasses == {"plain", "pct", "punct", "foreigntpm"}
@@ -101,7 +130,7 @@ Where(c, s) ==
       f  == FirstExisting(c)
       d  == DefIdx(c, s)
   IN IF lc \in {"absE", "absEc", "relCwd"} THEN {W("given", 0)}
-     ELSE IF lc = "relE" /\ f # 0 THEN {W("nexttofile", f)}
+     ELSE IF lc \in {"relE", "relB"} /\ f # 0 THEN {W("nexttofile", f)}      \* relT: not next to THE file - falls through
      ELSE IF d # 0 THEN {W("default", d)}
      ELSE {W("given", 0), W("empty", 0)} \cup {W("nexttofile", i) : i \in 0..c.n}
           \cup {W("default", i) : i \in 1..Len(c.defx[s])}
@@ -173,7 +202,7 @@ P_EmptyRefusedNotReplaced(c, r) ==
         /\ DefIdx(c, s) # 0 => r[s].where = {W("default", DefIdx(c, s))}
 \* the first existing candidate decides: unreadable <=> refused; and what comes after it never matters
 P_UnreadableRefused(c, r) ==
-  /\ (r.err = "oserror") <=> (c.exist # {} /\ c.kind[FirstExisting(c)] = "dir")
+  /\ (r.err = "oserror") <=> (c.exist # {} /\ c.kind[FirstExisting(c)] \in {"dir", "linkdir", "sock"})
   /\ r.err \in {"none", "oserror"}
   /\ LET f == FirstExisting(c)
          c2 == [c EXCEPT !.kind = [i \in DOMAIN c.kind |-> IF i = f THEN c.kind[i] ELSE "file"]]
@@ -185,10 +214,10 @@ P_OnlyFirstExistingFile(c, r) ==
 P_ExistingUsedAsGiven(c, r) ==
   \A s \in Stores : (r[s].src.k \in {"env", "file"} /\ ~ForeignTpm(c, s) /\ c.loc[s] \in {"absE", "relCwd"}) => r[s].where = {W("given", 0)}
 P_RelativeNextToFile(c, r) ==
-  \A s \in Stores : (r[s].src.k \in {"env", "file"} /\ ~ForeignTpm(c, s) /\ c.loc[s] = "relE" /\ c.exist # {})
+  \A s \in Stores : (r[s].src.k \in {"env", "file"} /\ ~ForeignTpm(c, s) /\ c.loc[s] \in {"relE", "relB"} /\ c.exist # {})
                       => r[s].where = {W("nexttofile", FirstExisting(c))}
 P_MissingFallsBackToDefault(c, r) ==
-  \A s \in Stores : ((r[s].src.k \in {"def", "empty"} \/ ForeignTpm(c, s) \/ c.loc[s] \in {"none", "absM", "relM", "relOther"} \/ (c.loc[s] = "relE" /\ c.exist = {}))
+  \A s \in Stores : ((r[s].src.k \in {"def", "empty"} \/ ForeignTpm(c, s) \/ c.loc[s] \in {"none", "absM", "relM", "relOther", "relT"} \/ (c.loc[s] \in {"relE", "relB"} /\ c.exist = {}))
                      /\ DefIdx(c, s) # 0) => r[s].where = {W("default", DefIdx(c, s))}
 \* "the first existing configuration file": existence counts, not content - an existing file that is
 \* empty or holds only comments still shadows every later candidate
@@ -197,6 +226,15 @@ P_ContentClassIrrelevant(c, r) ==
   (f # 0 /\ c.body[f] \in {"empty", "blank"}) =>
      \A s \in Settings : LET w == IF s = "transport" THEN r.transport ELSE r[s].src IN
                          w = IF c.env[s] = "set" THEN Src("env", 0) ELSE IF c.env[s] = "empty" THEN Src("empty", 0) ELSE Src("def", 0)
+\* what KIND of file-system object stands at a path never matters, existence does: a symbolic link to a file is that
+\* configuration file (and its directory is where the link is), a link to a directory / a socket is as unreadable as a
+\* directory, a dangling link or a link loop is no file, a store location that is a link or a regular file exists, a
+\* dangling one is missing; nor does the spelling of a relative location or the way a directory was reached
+Plain(c) == [c EXCEPT !.kind = [i \in DOMAIN c.kind |-> IF c.kind[i] \in ReadableKinds THEN "file" ELSE "dir"],
+                      !.ghost = [i \in DOMAIN c.ghost |-> "none"], !.cdir = [i \in DOMAIN c.cdir |-> "plain"], !.cwd = "plain",
+                      !.sobj = [s \in Stores |-> "dir"], !.smiss = [s \in Stores |-> "absent"], !.rel = [s \in Stores |-> "std"],
+                      !.loc = [s \in Stores |-> CASE c.loc[s] = "relB" -> "relE" [] c.loc[s] = "relT" -> "relM" [] OTHER -> c.loc[s]]]
+P_ObjectKindIrrelevant(c, r) == r = Resolve(Plain(c))
 \* the characters of a value never matter: same sources, same resolution as with plain values
 P_ValueAlphabetIrrelevant(c, r) ==
   c.val \in {"pct", "punct"} =>
